@@ -241,14 +241,24 @@ class G:
         k = d.randint(2, min(3, len(pool)))
         return ["unique", [["f", f["name"]] for f in d.sample(pool, k)]]
 
+    def any_stmt(self, depth):
+        """a statement as it comes, including the rare ones that reference no field at all (literal-only comparisons,
+        which must hold like any other statement), plus deliberately literal-only ones"""
+        d = self.d
+        if d.chance(4):
+            w = d.randint(1, 4)
+            return ["expr", ["bin", d.choice(["==", "!=", "<", ">="]), ["ulit", d.randint(0, (1 << w) - 1), w],
+                             ["ulit", d.randint(0, (1 << w) - 1), w]]]
+        return self.stmt(depth)
+
     def field_stmt(self, depth):
-        """a statement that references at least one field (statements referencing no field are a
-        recorded finding: the library drops them)"""
+        """a statement that references at least one field (used where the surrounding construction needs it: blocks that
+        must be attributable to an instance, dynamic blocks, soft guards)"""
         for _ in range(6):
             s = self.stmt(depth)
             if stmt_refs_field(s):
                 return s
-            EXCLUDED["statement referencing no field (known finding)"] += 1
+            EXCLUDED["statement referencing no field (regenerated)"] += 1
         f = self.fields[0]["name"]
         return ["expr", ["bin", "==", ["f", f], ["f", f]]]
 
